@@ -15,7 +15,7 @@ SCALE = 1 if TIER == "quick" else 8
 
 vlib.setup_impl_path()
 rep = vlib.Report("C09", TIER)
-vlib.regen("Skeleton")
+vlib.regen("Skeleton", "Pipeline", "Policy")
 props = vlib.build_props("C09")
 rep.add_props(props)
 
